@@ -200,8 +200,10 @@ REFACTORS = [
     ("r-extract-helper", "core/src/time_scale.rs",
      """        let cycle_ratio = cycle_time / self.duration;""",
      """        let cycle_ratio = self.ratio(cycle_time);""", ["C02", "C03", "C10", "C20"]),
-    ("r-sort-unstable", "core/src/timeline.rs", "            .sort_by(|a, b| a.normalized_time.total_cmp(&b.normalized_time));",
-     "            .sort_unstable_by(|a, b| a.normalized_time.total_cmp(&b.normalized_time));", ["C11", "C01"]),
+    # (`sort_unstable_by` was listed here until seeded change S7-C01 showed that it is not behaviour-preserving: with more than
+    # 32 keyframes two keyframes at one position can change places; it is now the mutant `sort-unstable`)
+    ("r-sort-by-key", "core/src/timeline.rs", "            .sort_by(|a, b| a.normalized_time.total_cmp(&b.normalized_time));",
+     "            .sort_by(|b, a| b.normalized_time.total_cmp(&a.normalized_time));", ["C11", "C01"]),
     ("r-reorder-statements", "core/src/timeline_helpers.rs",
      """    let easing = &start_frame.easing;
     let x = (time - start_frame.normalized_time) / duration;""",
